@@ -40,9 +40,16 @@ theorem named_groups_resolve :
     (pointGroupNames.all fun g => resolvePG pointGroupAliases pointGroupNames g == some g) = true := by
   decide +kernel
 
-/-- the space groups whose derived point group does not survive `Phase(space_group, point_group=name)`:
-exactly 3 … 9 (point groups named "2" — an alias of 2/m — and "m" — no group of that name) -/
-theorem bad_space_groups :
+/-- with the space group alone (`point_group=None`, the reader since 99d4b72) every space group 1 … 230 is
+reproduced together with its derived point group -/
+theorem all_space_groups_survive :
+    ((List.range' 1 230).all fun n =>
+      mkPhase genTables (some n) none == some (some n, sgPG genTables n)) = true := by
+  decide +kernel
+
+/-- pre-fix call `Phase(space_group, point_group=<stored name>)`: the derived point group did not survive for
+exactly the space groups 3 … 9 (point groups named "2" — an alias of 2/m — and "m" — no group of that name) -/
+theorem bad_space_groups_prefix :
     ((List.range' 1 230).filter fun n =>
       !(mkPhase genTables (some n) (sgPG genTables n) == some (some n, sgPG genTables n))) = [3, 4, 5, 6, 7, 8, 9] := by
   decide +kernel
